@@ -25,6 +25,29 @@ def replay(case):
         if ok and out['raised'] is None:
             ok = bool(ctx.representable_under(out['_r']))
         return {'violates': not ok, 'observed': _pub(out), 'key': 'special:' + desc['fam']}
+    if t['kind'] == 'glue':
+        from .c02_replay import replay as r2
+        return r2(dict(case, task=dict(t, kind='glue')))
+    if t['kind'] == 'exp':
+        nb, eo, rm = t['nbits'], t['eoffset'], t['rm']
+        ctx = fp.ExpContext(nb, eo, fp.RM[rm], fp.OV[t['ov']])
+        bias = (1 << (nb - 1)) - 1 - eo
+        emin, emax = -bias, (1 << nb) - 2 - bias
+        c = inp['c']; exp = inp['exp']
+        X = den(c, exp)
+        out = outcome_of(lambda: ctx.round(RealFloat(False, exp, c)), K, den)
+        d = round_detail(X, False, 1, None, rm, K)
+        R = d['R']; lo, hi = 1 << (emin + K), 1 << (emax + K)
+        inr = lo <= R <= hi
+        if out['raised'] is not None:
+            ok = (not inr) and out['raised'] in ('ValueError', 'OverflowError')
+        elif out['kind'] == 'nan':
+            ok = not inr
+        elif out['kind'] == 'fin':
+            ok = out['sign'] is False and ((out['D'] == R and bool(out['inexact']) == bool(d['inexact'])) if inr else out['D'] in (lo, hi))
+        else:
+            ok = False
+        return {'violates': not ok, 'observed': _pub(out), 'key': 'exp:' + ('in-range' if inr else 'out-of-range'), 'operand': '%d*2^%d' % (c, exp), 'context': repr(ctx)}
     c = inp['c']; exp = inp.get('exp', 0)
     if t['kind'] == 'kernel':
         p = inp.get('p'); n = inp.get('n')
